@@ -81,6 +81,11 @@ func isNotSymbolCharacter(c byte) bool {
 func expect(r *bufio.Reader, c byte) bool {
 	ReadWhitespace(r)
 	res, err := r.ReadByte()
+	if err != nil {
+		// nothing was read (end of input): unreading now would push back an earlier byte
+		// and make the readers loop forever on unterminated input
+		return false
+	}
 	if res != c {
 		_ = r.UnreadByte()
 	}
